@@ -263,10 +263,10 @@ theorem cast_table :
       ("Int16", "castInt"), ("Int32", "castInt"), ("Int64", "castInt"), ("Int8", "castInt"), ("String", "return v"),
       ("Uint", "castUint"), ("Uint16", "castUint"), ("Uint32", "castUint"), ("Uint64", "castUint"), ("Uint8", "castUint")] ∧
     Gen.Config.castOtherwise = "nil, ErrUnsupportedKind" ∧
-    Gen.Config.castParse = [("castBool", "strconv.ParseBool"), ("castInt", "strconv.ParseInt 0 t.Bits()"),
-      ("castUint", "strconv.ParseUint 0 t.Bits()"), ("castFloat", "strconv.ParseFloat t.Bits()")] ∧
-    Gen.Config.castKinds = [("castBool", []), ("castInt", ["Int", "Int8", "Int16", "Int32", "Int64"]),
-      ("castUint", ["Uint", "Uint8", "Uint16", "Uint32", "Uint64"]), ("castFloat", ["Float32", "Float64"])] :=
+    Gen.Config.castParse = [("castBool", "strconv.ParseBool"), ("castFloat", "strconv.ParseFloat t.Bits()"),
+      ("castInt", "strconv.ParseInt 0 t.Bits()"), ("castUint", "strconv.ParseUint 0 t.Bits()")] ∧
+    Gen.Config.castKinds = [("castBool", []), ("castFloat", ["Float32", "Float64"]),
+      ("castInt", ["Int", "Int8", "Int16", "Int32", "Int64"]), ("castUint", ["Uint", "Uint8", "Uint16", "Uint32", "Uint64"])] :=
   ⟨rfl, rfl, rfl, rfl⟩
 
 /-- `cli.readConfig`: the key, the value, and that the defaulting happens before the decode -/
